@@ -45,6 +45,19 @@ func (e *Enc) callCommon(fr *Frame, st *State, cc *ssa.CallCommon, fnv *Val, arg
 		return e.encBuiltin(fr, st, b, cc, args, rt, pos, hint)
 	}
 	// call-site assertions of the function under contract ("at call F@n assert ...")
+	fr.siteInvs, fr.siteKey = nil, ""
+	if fr.top && fr.contract != nil && len(fr.contract.CallInvariants) > 0 {
+		if fr.ranks == nil {
+			fr.ranks = computeRanks(fr.fn)
+		}
+		if r, ok := fr.ranks["call:"+fr.curCallClass][pos]; ok {
+			key := fmt.Sprintf("call:%s@%d", fr.curCallClass, r)
+			fr.siteInvs, fr.siteKey = fr.contract.CallInvariants[key], key
+			if len(fr.siteInvs) > 0 && e.dry == 0 {
+				fr.contract.callAssertSeen(key)
+			}
+		}
+	}
 	if fr.top && fr.contract != nil && len(fr.contract.CallAsserts) > 0 && e.dry == 0 {
 		if fr.ranks == nil {
 			fr.ranks = computeRanks(fr.fn)
@@ -97,6 +110,39 @@ func (e *Enc) callCommon(fr *Frame, st *State, cc *ssa.CallCommon, fnv *Val, arg
 	if fnv != nil && fnv.Clos != nil {
 		return e.callStatic(fr, st, fnv.Clos.Fn, fnv.Clos.Bind, args, rt, hint, pos)
 	}
+	if fnv != nil && len(fnv.Alts) > 0 {
+		// one of several known closures, depending on the path: case split
+		var sts []*State
+		var conds []string
+		var ress []*Val
+		for _, a := range fnv.Alts {
+			sa := st.clone()
+			sa.reach = and(st.reach, a.Cond)
+			if sa.reach == "false" {
+				continue
+			}
+			r := e.callStatic(fr, sa, a.Clos.Fn, a.Clos.Bind, args, rt, hint, pos)
+			if sa.reach == "false" {
+				continue
+			}
+			sts = append(sts, sa)
+			conds = append(conds, sa.reach)
+			ress = append(ress, r)
+		}
+		if len(sts) == 0 {
+			st.reach = "false"
+			if rt == nil {
+				return &Val{}
+			}
+			return e.zeroVal(rt)
+		}
+		m := e.mergeStates(hint+"!alts", sts, conds)
+		*st = *m
+		if rt == nil {
+			return &Val{}
+		}
+		return e.mergeVals(hint+"!altres", ress, conds)
+	}
 	if fn := cc.StaticCallee(); fn != nil {
 		var binds []*Val
 		if mc, ok := cc.Value.(*ssa.MakeClosure); ok {
@@ -106,12 +152,23 @@ func (e *Enc) callCommon(fr *Frame, st *State, cc *ssa.CallCommon, fnv *Val, arg
 		}
 		return e.callStatic(fr, st, fn, binds, args, rt, hint, pos)
 	}
+	// call through a package-level variable of function type: a contract may be attached to the variable
+	if ld, ok := cc.Value.(*ssa.UnOp); ok && ld.Op == token.MUL {
+		if g, ok := ld.X.(*ssa.Global); ok && g.Pkg != nil && g.Pkg.Pkg != nil {
+			if c, ok := e.DB.Contracts["varcall:"+g.Pkg.Pkg.Path()+"."+g.Name()]; ok && c.callable() {
+				return e.applyContract(fr, st, c, append([]*Val{fnv}, args...), rt, hint, pos)
+			}
+		}
+	}
 	// dynamic function value: a contract may be attached to its named function type
 	dk := "dyncall:" + typeStr(cc.Value.Type())
 	if c, ok := e.DB.Contracts[dk]; ok && c.callable() {
 		// the function value itself is bound to the name `callee` in a functype contract
 		return e.applyContract(fr, st, c, append([]*Val{fnv}, args...), rt, hint, pos)
 	}
+	// an unknown function VALUE may be a closure over anything: whatever its arguments are, it can mutate every heap
+	// object and every component of the abstract state
+	e.havocAll(st)
 	return e.defaultCall(fr, st, dk, args, rt, hint, pos)
 }
 
@@ -144,6 +201,20 @@ func (e *Enc) callStatic(fr *Frame, st *State, fn *ssa.Function, binds []*Val, a
 	key := fnKey(fn)
 	if c, ok := e.DB.Contracts[key]; ok && c.callable() && len(binds) == 0 {
 		return e.applyContract(fr, st, c, args, rt, hint, pos)
+	}
+	if c, ok := e.DB.Contracts[key]; ok && c.callable() && c.closure && len(binds) == len(fn.FreeVars) {
+		// a closure with its own contract: the captured variables' cells are the bindings
+		cells := map[string]*Val{}
+		for i, fv := range fn.FreeVars {
+			if b := binds[i]; b != nil && isPointer(fv.Type()) && b.Loc == nil && b.Clos == nil {
+				cells[fv.Name()] = b
+			}
+		}
+		saved := e.applyCells
+		e.applyCells = cells
+		r := e.applyContract(fr, st, c, args, rt, hint, pos)
+		e.applyCells = saved
+		return r
 	}
 	if fn.Blocks != nil && e.canInline(fr, fn) {
 		return e.inline(fr, st, fn, binds, args, rt, hint, pos)
@@ -364,6 +435,9 @@ func (e *Enc) applyContract(fr *Frame, st *State, c *Contract, args []*Val, rt t
 	sig := c.Sig
 	vars := e.bindParams(c, args, sig)
 	short := c.funcType
+	if c.closure {
+		short = c.funcName
+	}
 	if c.Obj != nil {
 		short = c.Obj.Name()
 		if sig.Recv() != nil {
@@ -371,7 +445,7 @@ func (e *Enc) applyContract(fr *Frame, st *State, c *Contract, args []*Val, rt t
 		}
 	}
 	siteName := e.site(fr, "call:"+short, pos)
-	env := &Env{e: e, vars: vars, st: st, old: st, pkgPath: c.PkgPath, imports: c.Imports, fr: nil}
+	env := &Env{e: e, vars: vars, st: st, old: st, pkgPath: c.PkgPath, imports: c.Imports, fr: nil, cells: e.applyCells}
 	for i, rq := range c.Requires {
 		g, err := env.evalBool(rq.E)
 		if err != nil {
@@ -393,7 +467,7 @@ func (e *Enc) applyContract(fr *Frame, st *State, c *Contract, args []*Val, rt t
 	case "any":
 		e.addPanic(fr, st, "callpanic:"+short, "true", "callee "+c.Key+" may panic", pos)
 	case "only_if", "iff":
-		penv := &Env{e: e, vars: vars, st: pre, old: pre, pkgPath: c.PkgPath, imports: c.Imports}
+		penv := &Env{e: e, vars: vars, st: pre, old: pre, pkgPath: c.PkgPath, imports: c.Imports, cells: e.applyCells}
 		p, err := penv.evalBool(c.PanicCond)
 		if err != nil {
 			e.unsupportedf("panics clause of %s: %v", c.Key, err)
@@ -410,13 +484,74 @@ func (e *Enc) applyContract(fr *Frame, st *State, c *Contract, args []*Val, rt t
 			// a repo contract without modifies clause: conservatively havoc everything
 			e.havocAll(st)
 		} else {
-			menv := &Env{e: e, vars: vars, st: pre, old: pre, pkgPath: c.PkgPath, imports: c.Imports}
+			menv := &Env{e: e, vars: vars, st: pre, old: pre, pkgPath: c.PkgPath, imports: c.Imports, cells: e.applyCells}
 			for i, m := range c.Modifies {
+				cond := "true"
+				if i < len(c.ModWhen) && c.ModWhen[i] != nil {
+					t, err := menv.evalBool(c.ModWhen[i])
+					if err != nil {
+						e.unsupportedf("modifies condition of %s: %v", c.Key, err)
+					} else {
+						cond = t
+					}
+				}
+				if cond == "false" {
+					continue // this call cannot modify the target: it is neither havocked nor counted as written
+				}
+				if id, ok := m.(*ECall); ok {
+					if fid, ok := id.Fun.(*EIdent); ok && fid.Name == "effects" && len(id.Args) == 1 {
+						e.havocEffects(fr, st, menv, id.Args[0], c)
+						continue
+					}
+				}
+				if cond == "true" {
+					if err := menv.havocTarget(st, m); err != nil {
+						e.unsupportedf("modifies %s of %s: %v", c.ModSrc[i], c.Key, err)
+					}
+					continue
+				}
+				// conditional havoc: new value where the condition holds, the old value elsewhere
+				before := map[string]string{}
+				for k, t := range st.heap {
+					before[k] = t
+				}
 				if err := menv.havocTarget(st, m); err != nil {
 					e.unsupportedf("modifies %s of %s: %v", c.ModSrc[i], c.Key, err)
+					continue
+				}
+				for _, k := range sortedKeys(st.heap) {
+					t := st.heap[k]
+					old, had := before[k]
+					if had && old == t {
+						continue
+					}
+					if !had {
+						old = e.heapGet(pre, k, e.heapSort[k])
+					}
+					n := e.fresh(k, e.heapSort[k])
+					e.assert(eq(n, ite(cond, t, old)))
+					st.heap[k] = n
 				}
 			}
 			e.bumpAlloc(st)
+		}
+		if !c.Assumed {
+			// a verified callee may have handed out identities of the allocator ghost variables (not part of its frame)
+			for _, g := range sortedKeys(e.DB.Allocators) {
+				gv, ok := e.DB.GhostVars[g]
+				if !ok {
+					continue
+				}
+				srt, _, err := e.resolveTypeExpr(gv.T, gv.PkgPath, gv.Imports)
+				if err != nil || !strings.HasSuffix(srt, " Bool)") {
+					continue
+				}
+				ks, _ := splitArraySort(srt)
+				before := e.heapGet(st, "G|"+g, srt)
+				e.heapHavoc(st, "G|"+g)
+				after := st.heap["G|"+g]
+				e.assert("(forall ((l " + ks + ")) (! (=> (select " + before + " l) (select " + after + " l)) :pattern ((select " + after + " l))))")
+			}
 		}
 	}
 	var res *Val
@@ -429,13 +564,16 @@ func (e *Enc) applyContract(fr *Frame, st *State, c *Contract, args []*Val, rt t
 	} else {
 		res = &Val{}
 	}
-	env2 := &Env{e: e, vars: copyVals(vars), st: st, old: pre, pkgPath: c.PkgPath, imports: c.Imports}
+	env2 := &Env{e: e, vars: copyVals(vars), st: st, old: pre, pkgPath: c.PkgPath, imports: c.Imports, cells: e.applyCells}
 	env2.bindResults(c, res, rt)
 	for _, en := range c.Ensures {
 		g, err := env2.evalBool(en.E)
 		if err != nil {
 			e.unsupportedf("ensures of %s: %v", c.Key, err)
 			continue
+		}
+		if en.Trusted && e.dry == 0 {
+			e.assumedUsed["trusted ensures of "+c.Key]++
 		}
 		e.assume(st, g)
 	}
@@ -544,6 +682,8 @@ func (e *Enc) encBuiltin(fr *Frame, st *State, b *ssa.Builtin, cc *ssa.CallCommo
 				t := "(" + f + " (select " + dom + " " + x.L[0].T + "))"
 				e.assert("(<= 0 " + t + ")")
 				e.assert("(= (" + f + " ((as const (Array " + ksort + " Bool)) false)) 0)")
+				// a (finite) map has no entries iff its key set is empty
+				e.assert("(= (= " + t + " 0) (= (select " + dom + " " + x.L[0].T + ") ((as const (Array " + ksort + " Bool)) false)))")
 				return &Val{T: rt, L: []Sc{{ite(eq(x.L[0].T, "0"), "0", t), "Int"}}}
 			}
 		case *types.Array:
@@ -674,6 +814,10 @@ func (e *Enc) encAppend(fr *Frame, st *State, cc *ssa.CallCommon, args []*Val, r
 		inNew := "(and (<= (+ " + no + " " + ln + ") q) (< q (+ " + no + " " + nlen + ")))"
 		outside := "(or (< q " + no + ") (>= q (+ " + no + " " + nlen + ")))"
 		e.assert("(forall ((q Int)) (! (and (=> " + inOld + " (= (select " + na + " q) " + oldAt + ")) (=> " + inNew + " (= (select " + na + " q) " + src + ")) (=> (and " + fits + " " + outside + ") (= (select " + na + " q) (select (select " + h + " " + base + ") q)))) :pattern ((select " + na + " q))))")
+		if !isStr {
+			// appending exactly one element (the common case): the new cell directly
+			e.assert("(=> (= " + tlen + " 1) (= (select " + na + " (+ " + no + " " + ln + ")) (select (select " + h + " " + tbase + ") " + toff + ")))")
+		}
 		e.withRef(base, func() { e.heapSet(st, k, sorts[i], "(store "+h+" "+nb+" "+na+")") }) // base itself, or a new backing
 		if b, ok := sl.Elem().Underlying().(*types.Basic); ok && b.Kind() == types.Uint8 && !isStr && len(keys) == 1 {
 			e.bcatFact(e.bseqTerm(na, no, nlen), e.bseqTerm("(select "+h+" "+base+")", off, ln), e.bseqTerm("(select "+h+" "+tbase+")", toff, tlen))
@@ -744,4 +888,106 @@ func (e *Enc) pickAlt(c *Contract, args []*Val) *Contract {
 		}
 	}
 	return c
+}
+
+// havocEffects: `modifies effects(f)` at a call site — the callee may do whatever calling the function value f does, any
+// number of times. When f is a closure known at encode time its body is encoded once in a dry run to learn which heap
+// keys it writes (transitively through the contracts of its callees); exactly those are havocked. Otherwise everything is.
+func (e *Enc) havocEffects(fr *Frame, st *State, menv *Env, arg Expr, c *Contract) {
+	v, err := menv.eval(arg)
+	if err != nil || v == nil || v.Clos == nil || v.Clos.Fn == nil || v.Clos.Fn.Blocks == nil {
+		e.havocAll(st)
+		return
+	}
+	fn := v.Clos.Fn
+	invs, siteKey := fr.siteInvs, fr.siteKey
+	// call-site invariant: holds before the call
+	for i, inv := range invs {
+		if e.dry > 0 {
+			break
+		}
+		g, err := e.envFor(fr, st).evalBool(inv.E)
+		if err != nil {
+			e.unsupportedf("%s invariant %s: %v", siteKey, inv.Src, err)
+			continue
+		}
+		e.addObl(&Obligation{Name: siteKey + ":invariant.establish:" + clauseName(inv, i), Kind: "invariant-establish", Label: inv.Label, Clause: "at " + siteKey + ": " + inv.Src, Reach: st.reach, Goal: g})
+	}
+	d := e.beginDry(fr)
+	{
+		hst := st.clone()
+		var args []*Val
+		for _, p := range fn.Params {
+			args = append(args, e.freshVal(hst, "fx!"+p.Name(), p.Type()))
+		}
+		var rt types.Type
+		switch fn.Signature.Results().Len() {
+		case 0:
+		case 1:
+			rt = fn.Signature.Results().At(0).Type()
+		default:
+			rt = fn.Signature.Results()
+		}
+		e.inline(fr, hst, fn, v.Clos.Bind, args, rt, "fx", fn.Pos())
+	}
+	written := e.endDry(fr, d)
+	nonLocal := e.dryNonLocal
+	if written["*"] {
+		e.havocAll(st)
+		return
+	}
+	for _, k := range sortedKeys(written) {
+		if strings.HasPrefix(k, "RV|") {
+			continue
+		}
+		if _, ok := e.heapSort[k]; ok {
+			before := e.heapGet(st, k, e.heapSort[k])
+			e.heapHavoc(st, k)
+			// every write of the function value to this component goes through an object allocated by the current
+			// function (captured locals): objects that existed when the current function started are untouched
+			if !nonLocal[k] && refIndexedKey(k) {
+				e.assert("(forall ((r Int)) (! (=> (<= r alloc@0) (= (select " + st.heap[k] + " r) (select " + before + " r))) :pattern ((select " + st.heap[k] + " r))))")
+			} else if nonLocal[k] {
+				e.noteNonLocal(k)
+			}
+		}
+	}
+	if len(invs) == 0 {
+		return
+	}
+	// the havocked state is an arbitrary state reachable by running the function value some number of times: assume the
+	// invariant there, show that one more run preserves it (this run is a real encoding: the obligations inside the
+	// function value's body are generated under the invariant), then continue from the havocked state
+	for _, inv := range invs {
+		if g, err := e.envFor(fr, st).evalBool(inv.E); err == nil {
+			e.assume(st, g)
+		}
+	}
+	if e.dry > 0 {
+		return
+	}
+	run := st.clone()
+	var args []*Val
+	for _, p := range fn.Params {
+		args = append(args, e.freshVal(run, "fxi!"+p.Name(), p.Type()))
+	}
+	var rt types.Type
+	switch fn.Signature.Results().Len() {
+	case 0:
+	case 1:
+		rt = fn.Signature.Results().At(0).Type()
+	default:
+		rt = fn.Signature.Results()
+	}
+	e.inline(fr, run, fn, v.Clos.Bind, args, rt, "fxi", fn.Pos())
+	if run.reach != "false" {
+		for i, inv := range invs {
+			g, err := e.envFor(fr, run).evalBool(inv.E)
+			if err != nil {
+				e.unsupportedf("%s invariant %s: %v", siteKey, inv.Src, err)
+				continue
+			}
+			e.addObl(&Obligation{Name: siteKey + ":invariant.preserve:" + clauseName(inv, i), Kind: "invariant-preserve", Label: inv.Label, Clause: "at " + siteKey + " (one run of the function value): " + inv.Src, Reach: run.reach, Goal: g})
+		}
+	}
 }
